@@ -125,6 +125,13 @@ claim("C19", "property-based testing of the validation rules against a reference
       "no privileged field set, nobody else changed, logged in iff confirm is not loaded, otherwise unconfirmed with exactly one mail to it.",
       TRUST, engine="register+rules")
 
+claim("C18", "fault enumeration: scripted scenarios x every backend call x error kinds x both error handlers, plus rapid-generated histories with random fault placement",
+      "46 scripted scenarios cover every route and middleware of every module; for each, a fault-free run discovers the backend calls of the target request (storage methods, hasher, renderers, SMS sender) and then EVERY call index is failed in turn, "
+      "with each applicable error kind (generic; ErrUserNotFound/ErrTokenNotFound/ErrUserFound where the method can return them), under both the silent default error handler and one that writes a 500, followed by monotonicity probes (re-submission of the credential). "
+      "Random all-flow histories additionally inject a fault into ~30% of requests. Oracle: no panic; a success-class response implies the reported change is in storage; a session obtained through a one-time credential implies its consumption was saved; "
+      "nothing that was accepted once is accepted again.",
+      TRUST + " One fault per request; faults in the client-state stores are not injected (the statement lists storage, hasher, renderer and SMS sender).", level="fault_enumeration", engine="fault-enumerator")
+
 NOT_YET = "check not built yet in this round (claimed in DESIGN.md; will be claimed once its check is committed)"
 
 def main():
@@ -164,6 +171,7 @@ def main():
             {"name": "redirect-strings", "path": "/verif/props/c15_test.go", "kind_free_text": "grammar-generated redirect targets through real flows over a loopback socket", "serves_properties": ["C15"]},
             {"name": "paired-differential", "path": "/verif/props/c16_test.go", "kind_free_text": "two worlds from one description, transcript equality", "serves_properties": ["C16"]},
             {"name": "register+rules", "path": "/verif/props/c19_test.go", "kind_free_text": "rules PBT against a reference evaluator; registration requests against a user-table diff", "serves_properties": ["C19"]},
+            {"name": "fault-enumerator", "path": "/verif/props/c18_test.go", "kind_free_text": "scripted scenarios x backend call index x error kind x error handler; random histories with injected faults", "serves_properties": ["C18"]},
             {"name": "handler-program", "path": "/verif/props/c11_test.go", "kind_free_text": "rapid-generated handler programs against recording stores", "serves_properties": ["C11"]},
         ],
         "checks": checks,
